@@ -387,6 +387,13 @@ class MessageAccumulator:
             batch.failure(exception)
         self._exception = exception
 
+    def fail_partitions(self, tps, exception):
+        """Fail and drop the batches of these partitions that were not
+        handed to the sender yet (no sequence numbers consumed)."""
+        for tp in list(tps):
+            for batch in self._batches.pop(tp, ()):
+                batch.failure(exception)
+
     async def close(self):
         self._closed = True
         await self.flush()
